@@ -4,6 +4,7 @@
 pub mod classfile;
 pub mod corpus;
 pub mod engine;
+pub mod fuzzrun;
 pub mod jar;
 pub mod mapmodel;
 pub mod props;
